@@ -180,7 +180,10 @@ def outcome(fn, Row, helper=False) -> str:
 # values, scripts
 # ------------------------------------------------------------------------------------------------
 
-NAMES = ["a", "b", "c", "x", "name", "count", "index", "a b", "A"]
+# ordinary names, names of Row/tuple methods, and legal-but-odd names (leading underscore, dunder-like, Spark's
+# default column names)
+NAMES = ["a", "b", "c", "x", "name", "count", "index", "a b", "A", "_1", "_", "__x", "_c0", "asDict", "_2"]
+CLASS_ATTRS = ("count", "index", "asDict")
 ATOMS = [None, True, False, 0, 1, 2, -1, 7, 2 ** 40, 0.0, 1.5, -2.25, 0.1, 1e-05, 1e22, float("inf"), "", "a", "b",
          "x", "x'y", 'q"r', "it's \"q\"", "a b", "__d", "back\\slash"]
 
@@ -251,7 +254,7 @@ class SGen:
     def short_row(self):
         """a Row made by a Row class with FEWER values than fields (legal in PySpark), and its field names"""
         r = self.r
-        names = r.sample(["a", "b", "c", "x", "name"], r.randint(1, 4))
+        names = r.sample(["a", "b", "c", "x", "name", "_1", "_2", "_"], r.randint(1, 4))
         m = r.randint(0, len(names) - 1)
         return ("call", ("new", [("lit", n) for n in names], []), [("lit", gen_atom(r)) for _ in range(m)]), names
 
@@ -298,8 +301,12 @@ class SGen:
         if k < 0.42:
             if r.random() < 0.25:
                 sr, names = self.short_row()
-                return ("getattr", sr, r.choice([n for n in names if n not in ("count", "index")] or ["a"]))
-            pool = [n for n in NAMES if n not in ("count", "index")] + ["zz", "__x", "__fields__"]
+                return ("getattr", sr, r.choice([n for n in names if n not in CLASS_ATTRS] or ["a"]))
+            if row[0] == "new" and row[2] and r.random() < 0.5:
+                own = [n for n, _ in row[2] if top or n not in CLASS_ATTRS]     # read a field the row really has
+                if own:
+                    return ("getattr", row, r.choice(own))
+            pool = [n for n in NAMES if n not in CLASS_ATTRS] + ["zz", "__x", "__fields__", "_zz"]
             return ("getattr", row, r.choice(pool + (["count", "asDict"] if top else [])))
         if k < 0.52:
             if r.random() < 0.5:
@@ -843,6 +850,12 @@ CORPUS = [
     ("getattr", ("call", ("new", [("lit", "a"), ("lit", "b")], []), [("lit", 1)]), "b"),            # AttributeError
     ("asdict", ("call", ("new", [("lit", "a"), ("lit", "b")], []), [("lit", 1)]), False),
     ("getattr", ("new", [], [("a", ("lit", 1))]), "b"),
+    ("getattr", ("new", [], [("_1", ("lit", 5))]), "_1"),                                            # 5 in both
+    ("getattr", ("call", ("new", [("lit", "_1"), ("lit", "_2")], []), [("lit", 1), ("lit", 2)]), "_2"),
+    ("getattr", ("new", [], [("_", ("lit", 1))]), "_"),
+    ("getattr", ("new", [], [("__x", ("lit", 1))]), "__x"),                                          # AttributeError in both
+    ("getattr", ("new", [], [("count", ("lit", 1))]), "count"),                                      # the tuple method
+    ("getitem", ("new", [], [("count", ("lit", 1)), ("_c0", ("lit", 2))]), ("lit", "count")),
     ("asdict", ("new", [("lit", 1)], []), False),
     ("asdict", ("call", ("new", [("lit", "a"), ("lit", "b"), ("lit", "a")], []), [("lit", 1), ("lit", 2), ("lit", 3)]), False),
     ("asdict", ("new", [], [("k", ("new", [], [("n", ("list", [("new", [], [("d", ("lit", {"z": 1}))])]))]))]), True),
